@@ -271,6 +271,10 @@ def run(ctx, report: Report) -> None:
     from .sem import util_lower_table
     util_lower_table(ctx, r9)
 
+    # elements are told apart by identity, not by markup; comments and empty strings between elements change nothing
+    from .e2ematch import lookalike_table
+    lookalike_table(ctx, r9)
+
 
 
 def comma_reset_rule(ctx, r7):
